@@ -1837,7 +1837,6 @@ func g23BreakOnlyWithoutProgress(r *Repo, rep *Report) {
 	}
 }
 
-
 // g23HeaderCondition — besides the break under "the same calls are still undefined", the reload loop may end through its
 // header condition. The only sound header is "this pass generated something" (or none at all): a pass that generated nothing has
 // not changed the derived file, so a reload cannot make another call typeable. The variable in the header may therefore only
